@@ -242,10 +242,11 @@ type sortCtx struct {
 	tidList []string
 	structs map[string]*types.Struct // sort name -> struct
 	named   map[string]types.Type
+	mapKV   map[string][2]string
 }
 
 func newSortCtx(d *Decls) *sortCtx {
-	return &sortCtx{d: d, tids: map[string]int{}, structs: map[string]*types.Struct{}, named: map[string]types.Type{}}
+	return &sortCtx{d: d, tids: map[string]int{}, structs: map[string]*types.Struct{}, named: map[string]types.Type{}, mapKV: map[string][2]string{}}
 }
 
 func typeString(t types.Type) string {
@@ -324,6 +325,7 @@ func (sc *sortCtx) sliceSort(elem string) string {
 
 func (sc *sortCtx) mapSort(k, v string) string {
 	n := "Map_" + mangle(k) + "_" + mangle(v)
+	sc.mapKV[n] = [2]string{k, v}
 	sc.d.add("s:"+n, fmt.Sprintf("(declare-datatypes ((%s 0)) (((mk_%s (mdom_%s (Array %s Bool)) (mval_%s (Array %s %s)) (mcard_%s Int) (mnil_%s Bool)))))", n, n, n, k, n, k, v, n, n))
 	return n
 }
@@ -339,7 +341,15 @@ func (sc *sortCtx) structName(t types.Type, u *types.Struct) string {
 			pkg = n.Obj().Pkg().Name() + "_"
 		}
 		name := "S_" + pkg + n.Obj().Name()
-		if n.TypeArgs() != nil && n.TypeArgs().Len() > 0 {
+		allParams := true
+		if n.TypeArgs() != nil {
+			for i := 0; i < n.TypeArgs().Len(); i++ {
+				if _, ok := types.Unalias(n.TypeArgs().At(i)).(*types.TypeParam); !ok {
+					allParams = false
+				}
+			}
+		}
+		if n.TypeArgs() != nil && n.TypeArgs().Len() > 0 && !allParams {
 			for i := 0; i < n.TypeArgs().Len(); i++ {
 				name += "_" + mangle(shortTypeString(n.TypeArgs().At(i)))
 			}
@@ -354,7 +364,7 @@ func (sc *sortCtx) structSort(t types.Type, u *types.Struct) string {
 	// distinct Go types with the same short name (sync.Mutex / internal/sync.Mutex)
 	for i := 2; ; i++ {
 		prev, ok := sc.named[name]
-		if !ok || types.Identical(prev, t) {
+		if !ok || types.Identical(prev, t) || sameGeneric(prev, t) {
 			break
 		}
 		name = fmt.Sprintf("%s_%d", sc.structName(t, u), i)
@@ -411,4 +421,11 @@ func (d *Decls) declarePow2() {
 	d.axiom("pow2.0", "(= (pow2 0) 1)")
 	d.axiom("pow2.step", "(forall ((i Int)) (! (=> (>= i 0) (= (pow2 (+ i 1)) (* 2 (pow2 i)))) :pattern ((pow2 (+ i 1)))))")
 	d.axiom("pow2.pos", "(forall ((i Int)) (! (=> (>= i 0) (> (pow2 i) 0)) :pattern ((pow2 i))))")
+}
+
+// sameGeneric: both are the same generic type, uninstantiated or instantiated with type parameters only.
+func sameGeneric(a, b types.Type) bool {
+	na, ok1 := types.Unalias(a).(*types.Named)
+	nb, ok2 := types.Unalias(b).(*types.Named)
+	return ok1 && ok2 && na.Origin() == nb.Origin()
 }
